@@ -63,7 +63,7 @@ class C08(BaseCheck):
              'scales.scales_socket:ScalesSocket.open')
   REQUIRED_ANCHORS = ANCHORS
   REQUIRED_CLASSES = ('thrift', 'mux', 'fault:connect', 'fault:send', 'fault:recv', 'kind:error', 'kind:eof',
-                      'kind:refuse', 'kind:silence', 'reconnect-fault', 'probe', 'ping-silence', 'many-inflight', 'reply-and-close-same-instant', 'timeout-in-write', 'silent-with-inflight', 'requests-while-opening',
+                      'kind:refuse', 'kind:silence', 'reconnect-fault', 'probe', 'ping-silence', 'bare-socket', 'many-inflight', 'reply-and-close-same-instant', 'timeout-in-write', 'silent-with-inflight', 'requests-while-opening',
                       'expired-on-arrival', 'retry-from-handler', 'request-during-reconnect', 'stalled-peer', 'pings-ignored-under-traffic', 'second-life')
   ASSUMPTIONS = ('a silence fault (peer stops answering without closing) legitimately leaves the transport '
                  'open; only the probe clause applies then',)
@@ -117,6 +117,20 @@ class C08(BaseCheck):
       classes.add('fault:' + op)
       classes.add('kind:' + fkind)
     tp = (ThriftTransport if tr == 'thrift' else MuxTransport).Builder()
+    if (idx + variant) % 3 == 2:
+      # the transport driven over a plain ScalesSocket (no metrics wrapper), as a caller assembling the sinks
+      # by hand would: the socket class's own read/write loops carry the frames
+      from scales.scales_socket import ScalesSocket
+      cls_ = ThriftTransport if tr == 'thrift' else MuxTransport
+
+      class BareProvider(object):
+        Role = None
+
+        def CreateSink(self, props_):
+          e_ = props_[SinkProperties.Endpoint]
+          return cls_(ScalesSocket(e_.host, e_.port), props_[SinkProperties.Label])
+      tp = BareProvider()
+      classes.add('bare-socket')
     sp = (ThriftSerializerSink if tr == 'thrift' else ThriftMuxMessageSerializerSink).Builder()
     sp.next_provider = tp
     tprov = TimeoutSinkProvider()
@@ -253,7 +267,7 @@ class C08(BaseCheck):
         request()
         env.advance(1.5)
       elif sk == 'chunked':
-        request(act={'delay': 0.001, 'chunks': [(1, 0.001), (3, 0.001), (5, 0.002), (7, 0.0)]})
+        request(act={'delay': 0.001, 'chunks': [(1, 0.001), (3, 0.001), (5, 0.002), (7, 0.001), (2, 0.001), (9, 0.001)]})     # the body itself arrives in pieces
         env.advance(1.5)
       elif sk == 'second-life':
         # the owner closes the transport and opens it again (Close() resets the open result): the
